@@ -7,6 +7,7 @@
 use pie_graph::{DAG, Error, Node};
 mod piemodel;
 mod fsmodel;
+mod mapmodel;
 
 #[derive(Clone, Copy, Debug, PartialEq)]
 enum Op { AddNode, AddEdge(usize, usize), RemoveEdge(usize, usize), RemoveOut(usize), RemoveNode(usize), /** start over with a new DAG instance (same thread) */ New }
@@ -259,6 +260,7 @@ fn main() {
   let args: Vec<String> = std::env::args().collect();
   if args.len() >= 2 && (args[1] == "pie" || args[1] == "pie-case") { pie_main(&args); return; }
   if args.len() >= 2 && (args[1] == "fs" || args[1] == "fs-case") { fs_main(&args); return; }
+  if args.len() >= 2 && (args[1] == "map" || args[1] == "map-case") { map_main(&args); return; }
   if args.len() >= 3 && args[1] == "replay" {
     let ops = parse_ops(&args[2]);
     std::panic::set_hook(Box::new(|_| {}));
@@ -373,5 +375,24 @@ fn fs_main(args: &[String]) {
   }
   fsmodel::cleanup(&dir);
   println!("{{\"summary\":true,\"engine\":\"fs\",\"path_states\":{},\"cases\":{},\"violations\":{}}}", fsmodel::states().len(), ran, found);
+  if found > 0 { std::process::exit(1); }
+}
+
+/// C14 bounded stand-in: `map --cases N --len L --seed S` runs N random operation sequences; `map-case --seed S --index I --len L` re-runs one.
+fn map_main(args: &[String]) {
+  let get = |name: &str, d: usize| -> usize { args.iter().position(|a| a == name).map(|i| args[i + 1].parse().unwrap()).unwrap_or(d) };
+  let (cases, len, seed) = (get("--cases", 20000), get("--len", 14), get("--seed", 1));
+  let only = if args[1] == "map-case" { Some(get("--index", 0)) } else { None };
+  let range = match only { Some(i) => i..i + 1, None => 0..cases };
+  let mut found = 0usize; let mut ran = 0usize;
+  for i in range {
+    let mut rng = mapmodel::Rng((0x9E3779B97F4A7C15u64 ^ (seed as u64).wrapping_mul(0xD1342543DE82EF95) ^ (i as u64).wrapping_mul(0xA24BAED4963EE407)) | 1);
+    let ops = mapmodel::gen(&mut rng, len); ran += 1;
+    if let Err((at, f)) = mapmodel::run(&ops) {
+      println!("{{\"violation\":true,\"engine\":\"map\",\"property\":\"{}\",\"obligation\":\"{}\",\"rerun\":{:?},\"what\":{:?},\"case\":{:?}}}", f.prop, f.ob, format!("map-case --seed {} --index {} --len {}", seed, i, len), f.what, format!("{:?}", &ops[..=at]));
+      found += 1; if found >= 5 { break; }
+    }
+  }
+  println!("{{\"summary\":true,\"engine\":\"map\",\"cases\":{},\"sequence_len\":{},\"seed\":{},\"violations\":{}}}", ran, len, seed, found);
   if found > 0 { std::process::exit(1); }
 }
